@@ -13,7 +13,7 @@ pub fn meta() -> Meta {
     Meta {
         rule: "events = from_time_of_week(week, ns, scale) (+_utc) and to_time_of_week on the result and on arbitrary epochs at/after the reference; from_{gpst,qzsst,gst,bdt}_nanoseconds(u64) and to_*_nanoseconds on epochs of any scale; from_day_of_year(year, day, scale) then day_of_year / year_days_of_year / duration_in_year. Expected: parts == week*7 d + ns after the scale's zero; unique (week, ns < 604800 s) pair that rebuilds the epoch; counter Ok(n) iff 0 <= count < 1 century with n == count, else Err; year equal and |day - input| <= 8 ulp(366) + 1 ns, 1 January == day 1.0 exactly. Generation: weeks {0,1,1023,1024,2047,2048, random u32 below the largest representable, the largest}, ns {0,1,week-1,week, random u64 that stays representable}; epochs from each reference onward in all scales and just before it for the Err clause; u64 counters incl. >= 1 century and u64::MAX; (year 1..9999, day in [1, 366|367)). Non-trivial = week >= 1024, ns >= one week (carries into the week count), counter beyond one century / negative, epoch in another scale than the counter, day within 1e-6 of an integer or of the year end; distinct = distinct input hashes among those.",
         assumptions: &["M-SCALE zero points; M-CAL"],
-        mandatory: &["tow/week>=1024", "tow/ns>=one-week", "tow/decompose-arbitrary", "ctr/beyond-one-century", "ctr/negative", "ctr/cross-scale", "ctr/ok", "doy/first-day", "doy/near-year-end", "doy/leap-year"],
+        mandatory: &["tow/week>=1024", "tow/ns>=one-week", "tow/decompose-arbitrary", "ctr/beyond-one-century", "ctr/negative", "ctr/cross-scale", "ctr/non-uniform-holder", "ctr/ok", "doy/first-day", "doy/near-year-end", "doy/leap-year"],
         thorough_scale: 40,
         exhaustive_part: "lattice of weeks x ns x nine scales; every year 1..9999 x day 1.0",
     }
@@ -148,6 +148,41 @@ fn judge_ctr(rep: &mut Rep, cnt: i128, got: Result<u64, String>, det: &dyn Fn() 
     }
 }
 
+/// epoch held in UTC or ET/TDB read through a GNSS counter (the counter belongs to the instant, whatever scale holds it)
+pub fn check_ctr_of_any(rep: &mut Rep, w: &World, c: i128, s: TimeScale, ctr: TimeScale) {
+    if !rep.tick() {
+        return;
+    }
+    let t = w.to_tai(c, s);
+    let cnt = t - zero_tai_ns(ctr);
+    let tol: i128 = if is_dyn(s) { 30 } else { 0 };
+    rep.class("ctr/non-uniform-holder");
+    rep.nt(h64(&[6, c as u64, (c >> 64) as u64, scale_idx(s), scale_idx(ctr)]));
+    let e = ep(c, s);
+    match guard(|| read_ctr(&e, ctr)) {
+        Err(p) => rep.fail(&format!("ctr/panic/{}", p.class()), None, || format!("Epoch({c},{:?}).to_{:?}_nanoseconds() panicked: {}", s, ctr, p.msg)),
+        Ok(g) => {
+            // within the tolerance of the Ok/Err boundaries nothing is demanded
+            if cnt.abs() <= tol || (cnt - NPC).abs() <= tol {
+                return;
+            }
+            let fits = cnt >= 0 && cnt < NPC;
+            match g {
+                Ok(n) => {
+                    if !fits || (n as i128 - cnt).abs() > tol {
+                        rep.fail("ctr/to-value", None, || format!("Epoch({c},{:?}).to_{:?}_nanoseconds() = Ok({n}), count is {} (tol {})", s, ctr, cnt, tol));
+                    }
+                }
+                Err(_) => {
+                    if fits {
+                        rep.fail("ctr/err-although-fits", None, || format!("Epoch({c},{:?}).to_{:?}_nanoseconds() = Err, count {} fits", s, ctr, cnt));
+                    }
+                }
+            }
+        }
+    }
+}
+
 /// epoch of any uniform scale read through a GNSS counter
 pub fn check_ctr_of(rep: &mut Rep, c: i128, s: TimeScale, ctr: TimeScale) {
     if !rep.tick() {
@@ -227,6 +262,7 @@ pub fn check_doy(rep: &mut Rep, y: i32, x: f64, s: TimeScale) {
 pub fn run(cfg: &Cfg, rep: &mut Rep) {
     let sh = rep.shard as usize;
     let n = NSHARDS as usize;
+    let w = World::new(crate::model::dynm::NAIF);
     let wmax = (MAX_NS / NS_W) as u32;
     let mut i = 0usize;
     let weeks = [0u32, 1, 2, 1023, 1024, 1025, 2047, 2048, 2049, 4096, 65535, 65536, wmax - 1, wmax, wmax / 2];
@@ -316,6 +352,14 @@ pub fn run(cfg: &Cfg, rep: &mut Rep) {
                     _ => r.range_i128(0, NPC - 1),
                 };
                 check_ctr_of(rep, d + zero_tai_ns(ctr) - zero_tai_ns(su), su, ctr);
+                // the same instant held in UTC / ET / TDB
+                let t = d + zero_tai_ns(ctr);
+                let hs = *r.pick(&[TimeScale::UTC, TimeScale::UTC, TimeScale::ET, TimeScale::TDB]);
+                if let Some(c2) = w.from_tai(t, hs) {
+                    if !(hs == TimeScale::UTC && w.in_f12b_window(t)) {
+                        check_ctr_of_any(rep, &w, c2, hs, ctr);
+                    }
+                }
             }
             _ => {
                 let y = r.range_i64(1, 9999) as i32;
